@@ -783,4 +783,153 @@ theorem leftJoin_perm_decomp (on : Pred) (nR : Nat) (L R : List Row) :
       exact perm_middle.symm
 
 
+/-! generic insertion-ordered association list (what both hash tables are) -/
+
+def gInsert {K σ α} [BEq K] (step : σ → α → σ) (init : σ) (k : K) (a : α) : List (K × σ) → List (K × σ)
+  | [] => [(k, step init a)]
+  | (k', s) :: es => if k' == k then (k', step s a) :: es else (k', s) :: gInsert step init k a es
+
+/-- no element occurs twice (w.r.t. `==`). -/
+def NoDup {K} [BEq K] : List K → Prop
+  | [] => True
+  | x :: xs => (∀ y ∈ xs, (y == x) = false) ∧ NoDup xs
+
+theorem noDup_filter {K} [BEq K] (p : K → Bool) (xs : List K) (h : NoDup xs) : NoDup (xs.filter p) := by
+  induction xs with
+  | nil => trivial
+  | cons x xs ih =>
+    simp only [List.filter_cons]
+    split
+    · exact ⟨fun y hy => h.1 y (List.mem_filter.mp hy).1, ih h.2⟩
+    · exact ih h.2
+
+theorem noDup_dedup {K} [BEq K] (xs : List K) : NoDup (dedup xs) := by
+  induction xs with
+  | nil => trivial
+  | cons x xs ih =>
+    simp only [dedup]
+    refine ⟨fun y hy => ?_, noDup_filter _ _ ih⟩
+    have := (List.mem_filter.mp hy).2
+    simpa using this
+
+theorem mem_dedup {K} [BEq K] [LawfulBEq K] (xs : List K) (k : K) : k ∈ dedup xs ↔ k ∈ xs := by
+  induction xs with
+  | nil => simp [dedup]
+  | cons x xs ih =>
+    simp only [dedup, List.mem_cons, List.mem_filter, ih]
+    constructor
+    · rintro (h | ⟨h, _⟩)
+      · exact Or.inl h
+      · exact Or.inr h
+    · rintro (h | h)
+      · exact Or.inl h
+      · by_cases hx : k = x
+        · exact Or.inl hx
+        · exact Or.inr ⟨h, by simpa using hx⟩
+
+theorem contains_dedup {K} [BEq K] [LawfulBEq K] (xs : List K) (k : K) : (dedup xs).contains k = xs.contains k := by
+  rw [Bool.eq_iff_iff, List.contains_iff_mem, List.contains_iff_mem]
+  exact mem_dedup xs k
+
+theorem dedup_snoc {K} [BEq K] [LawfulBEq K] (xs : List K) (x : K) :
+    dedup (xs ++ [x]) = if xs.contains x then dedup xs else dedup xs ++ [x] := by
+  induction xs with
+  | nil => simp [dedup]
+  | cons y ys ih =>
+    simp only [List.cons_append, dedup, ih, List.contains_cons]
+    by_cases hxy : x == y
+    · have e : x = y := eq_of_beq hxy
+      subst e
+      simp only [BEq.rfl, Bool.true_or, if_true]
+      split
+      · rfl
+      · rw [List.filter_append]; simp
+    · simp only [hxy, Bool.false_or]
+      split
+      · rfl
+      · rw [List.filter_append]
+        simp [hxy]
+
+theorem gInsert_map {K σ α} [BEq K] [LawfulBEq K] (step : σ → α → σ) (init : σ) (k : K) (a : α)
+    (g : K → σ) (D : List K) (hD : NoDup D) :
+    gInsert step init k a (D.map (fun d => (d, g d))) =
+      if D.contains k then D.map (fun d => (d, if d == k then step (g d) a else g d))
+      else D.map (fun d => (d, g d)) ++ [(k, step init a)] := by
+  induction D with
+  | nil => simp [gInsert]
+  | cons d ds ih =>
+    simp only [List.map_cons, gInsert, List.contains_cons]
+    by_cases hd : d == k
+    · have hkd : (k == d) = true := by rw [eq_of_beq hd]; exact BEq.rfl
+      simp only [hd, if_true, hkd, Bool.true_or]
+      congr 1
+      apply List.map_congr_left
+      intro d' hd'
+      have : (d' == k) = false := by
+        have := hD.1 d' hd'
+        rw [eq_of_beq hd] at this; exact this
+      simp [this]
+    · have hkd : (k == d) = false := by
+        cases h : k == d
+        · rfl
+        · exact absurd (by rw [eq_of_beq h]; exact BEq.rfl) hd
+      simp only [hd, Bool.false_eq_true, if_false, hkd, Bool.false_or]
+      rw [ih hD.2]
+      split <;> simp
+
+/-- THE table lemma: folding `gInsert` over `L` yields, in first-occurrence order of the keys, each
+key with the fold of `step` over exactly the elements carrying that key (in input order). -/
+theorem gBuild_eq {K σ α} [BEq K] [LawfulBEq K] (step : σ → α → σ) (init : σ) (key : α → K) (L1 L0 : List α) :
+    L1.foldl (fun m a => gInsert step init (key a) a m)
+        ((dedup (L0.map key)).map (fun k => (k, (L0.filter (fun a => key a == k)).foldl step init))) =
+      (dedup ((L0 ++ L1).map key)).map (fun k => (k, ((L0 ++ L1).filter (fun a => key a == k)).foldl step init)) := by
+  induction L1 generalizing L0 with
+  | nil => simp
+  | cons a as ih =>
+    simp only [List.foldl_cons]
+    have snoc : gInsert step init (key a) a
+        ((dedup (L0.map key)).map (fun k => (k, (L0.filter (fun a => key a == k)).foldl step init))) =
+        (dedup ((L0 ++ [a]).map key)).map (fun k => (k, ((L0 ++ [a]).filter (fun a => key a == k)).foldl step init)) := by
+      rw [gInsert_map step init (key a) a _ _ (noDup_dedup _), contains_dedup]
+      rw [List.map_append, List.map_cons, List.map_nil, dedup_snoc]
+      by_cases hc : (L0.map key).contains (key a)
+      · simp only [hc, if_true]
+        apply List.map_congr_left
+        intro d _
+        rw [List.filter_append]
+        by_cases hd : d == key a
+        · have : (key a == d) = true := by rw [eq_of_beq hd]; exact BEq.rfl
+          simp [hd, this, List.foldl_append]
+        · have : (key a == d) = false := by
+            cases h : key a == d
+            · rfl
+            · exact absurd (by rw [eq_of_beq h]; exact BEq.rfl) hd
+          simp [hd, this]
+      · simp only [hc, Bool.false_eq_true, if_false, List.map_append, List.map_cons, List.map_nil]
+        have hnone : L0.filter (fun x => key x == key a) = [] := by
+          rw [List.filter_eq_nil_iff]
+          intro x hx hxa
+          apply hc
+          rw [List.contains_iff_mem]
+          rw [← eq_of_beq hxa]
+          exact List.mem_map_of_mem hx
+        congr 1
+        · apply List.map_congr_left
+          intro d hd
+          have hda : (key a == d) = false := by
+            cases h : key a == d
+            · rfl
+            · exfalso; apply hc
+              have : (dedup (L0.map key)).contains (key a) = true := by
+                rw [List.contains_iff_mem, eq_of_beq h]; exact hd
+              rwa [contains_dedup] at this
+          rw [List.filter_append]
+          simp [hda]
+        · rw [List.filter_append, hnone]
+          simp
+    rw [snoc]
+    have := ih (L0 ++ [a])
+    simpa [List.append_assoc] using this
+
+
 end RlModel
